@@ -332,6 +332,7 @@ Fixpoint eval (c : mctx) (e : menv) (x : mexpr) {struct x} : ev :=
         | [m] => match m with
                  | MVal v => EV (MRValue (negb (is_nil v)))
                  | MArgV a => match arg_val a with Some v => EV (MRValue (negb (is_nil v))) | None => EV (MRValue true) end
+                 | MZ _ => EV (MRValue true)
                  | _ => EStuck
                  end
         | _ => EStuck
@@ -371,8 +372,8 @@ Definition mutate (c : mctx) (o : obj) (meth : string) (args : list mval) : ev :
   | _, _ => EStuck
   end.
 
-(* a Go uint held by a local is a number, whether it came from an argument or from a conversion *)
-Definition canon (m : mval) : mval := match m with MArgV (AUint z) => MZ z | x => x end.
+(* a Go uint held by a local is a number, whether it came from an argument or from a conversion; a plain value is that value *)
+Definition canon (m : mval) : mval := match m with MArgV (AUint z) => MZ z | MArgV (AVal v) => MVal v | x => x end.
 Definition of_ev (e : menv) (n : nat) (r : ev) : mres :=
   match r with EV m => RNormal (lset e n (canon m)) | EPanic => RPanic | EHang => RHang | EStuck => RStuck end.
 
